@@ -16,6 +16,7 @@ import Spydr.Verilog.RoundTripLeafJ
 import Spydr.Verilog.RoundTripHierE
 import Spydr.Verilog.RoundTripHierH
 import Spydr.Verilog.RoundTripHierI
+import Spydr.Verilog.RoundTripAsgE
 import Spydr.Verilog.WFWiresC
 
 #print axioms Spydr.Verilog.getWires_spec
@@ -173,9 +174,28 @@ import Spydr.Verilog.WFWiresC
 #print axioms Spydr.Verilog.Elab.c04_text_hier
 #print axioms Spydr.Verilog.Elab.exNetH_struct
 #print axioms Spydr.Verilog.Elab.exNetH_roundtrip
+#print axioms Spydr.Verilog.Elab.asgStepR_run
+#print axioms Spydr.Verilog.Elab.asg_foldG
+#print axioms Spydr.Verilog.Elab.late_prefix
+#print axioms Spydr.Verilog.Elab.elabModule_lateWA
+#print axioms Spydr.Verilog.Elab.top_prefix
+#print axioms Spydr.Verilog.Elab.elabModule_wtopA
+#print axioms Spydr.Verilog.Elab.late_foldA
+#print axioms Spydr.Verilog.Elab.elabDesign_hierA
+#print axioms Spydr.Verilog.Elab.exHierA_builds
+#print axioms Spydr.Verilog.Elab.asg_view_step
+#print axioms Spydr.Verilog.Elab.asgs_view
+#print axioms Spydr.Verilog.Elab.view_coreA
+#print axioms Spydr.Verilog.Elab.buildLateWA_view
+#print axioms Spydr.Verilog.Elab.hier_foldA
+#print axioms Spydr.Verilog.Elab.c04_view_hierA
+#print axioms Spydr.Verilog.Elab.c04_ast_hierA
+#print axioms Spydr.Verilog.Elab.exNetHA_frag
+#print axioms Spydr.Verilog.Elab.exNetHA_has_assigns
 #print axioms Spydr.Verilog.Elab.createOrUpdateCable_ww
 #print axioms Spydr.Verilog.Elab.elabDesign_ww
 #print axioms Spydr.Verilog.Elab.reader_wiresWF
 #print axioms Spydr.Verilog.Elab.elab_wiresWF
 #print axioms Spydr.Verilog.Elab.exNet_wiresWF
-#print axioms Spydr.Verilog.Elab.unnamed_port_on_declared
+#print axioms Spydr.Verilog.Elab.positional_too_many_rejected
+#print axioms Spydr.Verilog.Elab.positional_undeclared_creates_ports
